@@ -278,6 +278,9 @@ def method_call(fr, obj, name, args, kwargs):
         # effect recorder (matplotlib Axes): the call is appended to the object's trace
         obj.fields["calls"].append((name, tuple(args), dict(kwargs)))
         return Opaque("artist", name)
+    if isinstance(obj, Obj) and obj.cls in ("pandas.DataFrame", "pandas.Index", "pandas.values"):
+        from . import pdmodel
+        return pdmodel.method(fr, obj, name, args, kwargs)
     if isinstance(obj, Arr):
         return arr_method(fr, obj, name, args, kwargs)
     if isinstance(obj, list):
@@ -884,3 +887,21 @@ def _plt_noop(fr, args, kwargs):
 @model("numpy.searchsorted")
 def _searchsorted(fr, args, kwargs):
     return N.searchsorted(args[0], args[1], kwargs.get("side", args[2] if len(args) > 2 else "left"))
+
+
+@model("pandas.DataFrame")
+def _pd_dataframe(fr, args, kwargs):
+    from . import pdmodel
+    return pdmodel.construct(fr, args, kwargs)
+
+
+def _install_pandas():
+    from . import pdmodel
+    MODELS["getattr:pandas.DataFrame"] = pdmodel.getattr_df
+    MODELS["getattr:pandas.values"] = pdmodel.getattr_values
+    MODELS["getattr:pandas.Index"] = pdmodel.getattr_index
+    MODELS["getitem:pandas.DataFrame"] = pdmodel.getitem_df
+    MODELS["setitem:pandas.DataFrame"] = pdmodel.setitem_df
+
+
+_install_pandas()
